@@ -322,7 +322,8 @@ theorem visit_clean {c : DrawCfg} (hrw : RwOk c.rw) (hct : c.Walk) {d : Option S
     refine { inv := ?_, wd_pos := hrv1, wd_eq := Or.inl hstep, gc_same := hgcs, lock_same := ?_, other_same := ?_,
              done := ?_, w_same := rfl, h_same := rfl, style_same := rfl, cursor_same := ⟨rfl, rfl, rfl, rfl⟩,
              flags_same := ⟨rfl, rfl⟩, writes := ⟨[], by simp [ATerm.applyAll], fun _ => rfl, by simp⟩, vis_same := ⟨rfl, rfl⟩,
-             covers := ⟨[], by simp [ATerm.applyAll], by intro _ p hp; simp at hp⟩ }
+             covers := ⟨[], by simp [ATerm.applyAll], by intro _ p hp; simp at hp⟩,
+             nb := by intro _ _; simp only [hcells]; simp }
     · refine { tw := inv.tw, th := inv.th, cw := ?_, ch := ?_, wok := ?_, valid := ?_, g1 := ?_, g2 := ?_, wf := ?_,
                g3 := ?_, kcur := ?_, kpen := inv.kpen, q := ?_, dcompat := inv.dcompat }
       · simpa using inv.cw
@@ -376,7 +377,8 @@ theorem visit_clean {c : DrawCfg} (hrw : RwOk c.rw) (hct : c.Walk) {d : Option S
     refine { inv := ?_, wd_pos := hrv1, wd_eq := Or.inl hstep, gc_same := fun _ _ => rfl, lock_same := fun _ _ => rfl,
              other_same := fun _ _ _ => rfl, done := hclean, w_same := rfl, h_same := rfl, style_same := rfl,
              cursor_same := ⟨rfl, rfl, rfl, rfl⟩, flags_same := ⟨rfl, rfl⟩, writes := ⟨[], by simp [ATerm.applyAll], fun _ => rfl, by simp⟩,
-             vis_same := ⟨rfl, rfl⟩, covers := ⟨[], by simp [ATerm.applyAll], by intro _ p hp; simp at hp⟩ }
+             vis_same := ⟨rfl, rfl⟩, covers := ⟨[], by simp [ATerm.applyAll], by intro _ p hp; simp at hp⟩,
+             nb := by intro h1 h2; exact absurd ⟨h1, h2⟩ hwide }
     refine { toSyncInv := inv.toSyncInv, kcur := inv.kcur, kpen := inv.kpen, q := ?_, dcompat := inv.dcompat }
     intro h1 h2 hlx hl hm b st hsh
     simp only [ATerm.applyAll, List.foldl_nil] at hsh
@@ -847,7 +849,12 @@ theorem visit_dirty {c : DrawCfg} (hrw : RwOk c.rw) (hct : c.Walk) {d : Option S
     have hinv := key _ _ (by simp) hcells hgcs rfl
     refine { inv := hinv, wd_pos := by omega, wd_eq := hwdeq, gc_same := hgcs, lock_same := ?_, other_same := ?_, done := ?_,
              w_same := rfl, h_same := rfl, style_same := rfl, cursor_same := ⟨rfl, rfl, rfl, rfl⟩, flags_same := ⟨rfl, rfl⟩,
-             writes := ⟨[(x, y)], by simp [ht0w], by simp [hd], by simp⟩, vis_same := by simp [ht0v], covers := hcov }
+             writes := ⟨[(x, y)], by simp [ht0w], by simp [hd], by simp⟩, vis_same := by simp [ht0v], covers := hcov,
+             nb := by
+               intro h1 h2
+               have hcc := hcells (x + 1) y
+               rw [if_neg (by omega), if_pos (show x + 1 = x + 1 ∧ y = y ∧ tx.2 > 1 ∧ x + 1 < s.w from ⟨rfl, rfl, h1, h2⟩)] at hcc
+               simp only [hcc]; rfl }
     · intro i j; simp only [hcells]; split
       · simp [Cell.markClean]
       · split <;> simp
@@ -874,7 +881,8 @@ theorem visit_dirty {c : DrawCfg} (hrw : RwOk c.rw) (hct : c.Walk) {d : Option S
     have hinv := key _ _ (by simp) hcells hgc1 rfl
     refine { inv := hinv, wd_pos := by omega, wd_eq := hwdeq, gc_same := hgc1, lock_same := ?_, other_same := ?_, done := ?_,
              w_same := rfl, h_same := rfl, style_same := rfl, cursor_same := ⟨rfl, rfl, rfl, rfl⟩, flags_same := ⟨rfl, rfl⟩,
-             writes := ⟨[(x, y)], by simp [ht0w], by simp [hd], by simp⟩, vis_same := by simp [ht0v], covers := hcov }
+             writes := ⟨[(x, y)], by simp [ht0w], by simp [hd], by simp⟩, vis_same := by simp [ht0v], covers := hcov,
+             nb := by intro h1 h2; exact absurd ⟨h1, h2⟩ hwide }
     · intro i j; simp only [hc1]; split
       · simp [Cell.markClean]
       · rfl
